@@ -304,7 +304,7 @@ pub struct VerifNode {
     /// cumulative path cost stored for the node (i32::MAX = not connected to BOS)
     pub total_cost: i32,
     /// back pointer: (end boundary, index inside that boundary) of the best previous node
-    pub prev: (u16, u16),
+    pub prev: (u16, u32),
 }
 
 #[cfg(feature = "verif")]
@@ -337,7 +337,7 @@ impl Lattice {
     }
 
     /// EOS connection: (back pointer, total cost)
-    pub fn verif_eos(&self) -> Option<((u16, u16), i32)> {
+    pub fn verif_eos(&self) -> Option<((u16, u32), i32)> {
         self.eos.map(|(idx, c)| ((idx.end(), idx.index()), c))
     }
 }
